@@ -387,9 +387,10 @@ def compact (F : Oracle) (cfg : CompactCfg) (sz : Nat) (w : World) : World × Co
 /-! ## RecoveryManager -/
 
 inductive RecErr where
-  | manifest               -- manifest object present but unparsable
-  | checkpoint (name : Nat)  -- referenced checkpoint missing / unparsable
-  | segment (id : Nat)       -- referenced segment missing / unparsable
+  | manifest     -- manifest object present but unparsable (`RecoveryError::Manifest`)
+  | io           -- a referenced object is missing: `get` fails (`RecoveryError::Io`)
+  | checkpoint   -- referenced checkpoint unparsable (`RecoveryError::Checkpoint`)
+  | segment      -- referenced segment unparsable (`RecoveryError::Segment`)
   deriving DecidableEq, Repr
 
 structure Recovered where
@@ -407,7 +408,8 @@ def loadSegments (st : Store) : List SegInfo → Except RecErr (List Delta)
       match loadSegments st rest with
       | .ok r => .ok (ds ++ r)
       | .error e => .error e
-    | _ => .error (.segment s.id)
+    | none => .error .io
+    | some _ => .error .segment
 
 /-- the segments recovery reads, in the order it reads them -/
 def segmentsToLoad (m : Manifest) : List SegInfo :=
@@ -429,7 +431,8 @@ def recover (st : Store) (rid : Nat) : Except RecErr Recovered :=
            | some c =>
              match NMap.get st (chkName c.name) with
              | some (.checkpoint state _) => Except.ok (some state)
-             | _ => Except.error (RecErr.checkpoint c.name)) with
+             | none => Except.error RecErr.io
+             | some _ => Except.error RecErr.checkpoint) with
     | .error e => .error e
     | .ok chk =>
       match loadSegments st (segmentsToLoad m) with
